@@ -104,3 +104,12 @@ package jsonapi
 //@ loop 0 invariant no-new-keys: forall k string :: k in t.Rels ==> k in pre(mapdom(t.Rels))
 //@ loop 0 invariant wf: relsWf(t.Rels)
 //@ loop 0 invariant frame: othersSame(t.Rels)
+
+//@ func Type.Fields
+//@ flag absolute-quantifiers
+//@ props C07 C03
+//@ requires nonnil: t != nil
+//@ modifies new[string]
+//@ ensures fresh: fresh(result) && len(result) >= 0
+//@ loop 0 invariant fresh: fresh(fields) && len(fields) >= 0 && unchanged(heap[string])
+//@ loop 1 invariant fresh: fresh(fields) && len(fields) >= 0 && unchanged(heap[string])
